@@ -24,7 +24,7 @@ SetOf(s) == {s[i] : i \in DOMAIN s}
 \* prediction of the implementation-shaped model
 Pred(e) ==
   CASE e.op = "Allocate" -> Scan(offset, offset, FALSE, 0, 2 * Range + 2)
-    [] e.op = "AllocateInRange" -> Scan(GoMod(e.a, Range), offset, TRUE, e.b, 2 * Range + 2)
+    [] e.op = "AllocateInRange" -> Scan(SetOff(e.a), offset, TRUE, e.b, 2 * Range + 2)
     [] OTHER -> [ok |-> TRUE, off |-> offset]
 HasSnap(e) == e.off >= 0
 ImplAgrees(e) ==
